@@ -728,6 +728,13 @@ class SymInt(int):
         # x & (2^k - 1) is a modulo
         if isinstance(o, int) and not isinstance(o, SymInt) and o >= 0 and (o & (o + 1)) == 0:
             return SymInt(self.z % (o + 1))
+        if isinstance(o, int) and not isinstance(o, SymInt) and o >= 0 and bin(o).count("1") <= 16:
+            # bit by bit: bit b of x is (x div 2^b) mod 2 (floor semantics, so two's complement for negative x too)
+            r = z3.IntVal(0)
+            for b in range(o.bit_length()):
+                if (o >> b) & 1:
+                    r = r + ((self.z / (1 << b)) % 2) * (1 << b)
+            return SymInt(r)
         raise Unsupported("bitwise and of symbolic int")
 
     __rand__ = __and__
